@@ -106,6 +106,21 @@ Theorem C20_after_success : forall k0 ls1 s1 raw cs s2 ls2 s3 a c,
   wire s3 c = [] /\ matchesb s3 c (raw, cs) = true.
 Proof. exact after_success. Qed.
 
+(* the same with an honest server, exactly: the acknowledged keyspace is the canonical name of the
+   requested one (unquoted: lower-cased; quoted: verbatim), provided no other keyspace whose name equals
+   the requested one up to ASCII case but whose canonical name differs was ever used on that connection.
+   (The premise comes from the proof route - C20_after_success up to case + C20_overlap_membership -;
+   no schedule violating the conclusion without it is known.) *)
+Theorem C20_after_success_exact : forall k0 ls1 s1 raw cs s2 ls2 s3 a c,
+  hrun (init k0) ls1 = Some s1 -> pending s1 = [] ->
+  valid_name raw -> step s1 (UseKeyspace raw cs) = Some s2 ->
+  no_use ls2 = true -> hrun s2 ls2 = Some s3 ->
+  In (unext s1, a) (log s3) -> a <> PAErr ->
+  ph s3 c = InPool -> alive s3 c = true ->
+  (forall k', In k' (told s3 c) -> eq_ci (fst k') raw = true -> canon k' = canon (raw, cs)) ->
+  wire s3 c = [] /\ acked s3 c = Some (canon (raw, cs)).
+Proof. exact after_success_exact. Qed.
+
 (* the pool of a node discovered later is constructed with the keyspace; without any use request it
    never shows a live connection that is not in that keyspace *)
 Theorem C20_fresh_pool : forall k ls s c,
@@ -199,8 +214,18 @@ Theorem C20_accept_sound : forall k0 t1 u k t2 t3 q t4 x t5,
   x = Some (canon k).
 Proof. exact accept_sound. Qed.
 
-(* the driver says `viol` for a scenario only when [prop_violb] holds on its trace; such a trace is
-   never accepted (so a failure of the property can never come out as `ok`) *)
+(* the driver says `viol` for a scenario only when [prop_violb] holds on its trace.  [prop_violb] is the
+   declarative property: sound (every `viol` rests on the decomposition of C20_accept_sound with a wrong
+   keyspace), complete for traces in which the call does not return twice, and never accepted *)
+Theorem C20_viol_sound : forall tr, prop_violb tr = true -> decl_viol tr.
+Proof. exact prop_violb_sound. Qed.
+
+Theorem C20_viol_complete : forall t1 u k t2 t3 q t4 x t5,
+  pending_calls t1 [] = [] -> no_call t2 = true -> no_ret u t2 = true -> no_call t3 = true -> no_call t4 = true ->
+  forallb (fun e => negb (starts q e)) t4 = true -> x <> Some (canon k) ->
+  prop_violb (t1 ++ ECall u k :: t2 ++ ERet u true :: t3 ++ EStart q :: t4 ++ EFrame q x :: t5) = true.
+Proof. exact prop_violb_complete. Qed.
+
 Theorem C20_viol_rejected : forall k0 tr, prop_violb tr = true -> accept_trace k0 tr = false.
 Proof. exact prop_viol_not_accepted. Qed.
 
@@ -251,6 +276,24 @@ Example C20_ex_after_success :
   | None => (false, false, [])
   end = (true, true, [(true, true, [], true); (true, true, [], true); (true, true, [], true)]).
 Proof. vm_compute. reflexivity. Qed.
+
+(* the schedule of C20_ex_after_success is an honest-server run and meets the case premise of
+   C20_after_success_exact: every connection is acknowledged exactly in canon (ks, false) = ks *)
+Example C20_ex_exact :
+  match hrun (init None) ex_ls1 with
+  | Some s1 =>
+      match step s1 (UseKeyspace ex_ks false) with
+      | Some s2 =>
+          match hrun s2 ex_ls2 with
+          | Some s3 => map (fun c => (acked s3 c, told s3 c)) [0; 1; 2]
+          | None => []
+          end
+      | None => []
+      end
+  | None => []
+  end = [(Some ex_ks, [(ex_ks, false)]); (Some ex_ks, [(ex_ks, false)]); (Some ex_ks, [(ex_ks, false)])] /\
+  canon (ex_ks, false) = ex_ks.
+Proof. split; vm_compute; reflexivity. Qed.
 
 (* a failed use (one connection refuses) leaves a connection outside the keyspace: C20_inv's third case *)
 Example C20_ex_failed :
@@ -389,5 +432,8 @@ Print Assumptions C20_overlap_same_name.
 Print Assumptions C20_honest_is_run.
 Print Assumptions C20_session.
 Print Assumptions C20_accept_sound.
+Print Assumptions C20_viol_sound.
+Print Assumptions C20_viol_complete.
 Print Assumptions C20_viol_rejected.
+Print Assumptions C20_after_success_exact.
 Print Assumptions C20_valid_nameb.
